@@ -347,7 +347,7 @@ func ruleSwapOrder(c *Ctx) {
 	put := f.CallSites("pkg/core/storage.(Store).PutChangeSet")
 	var flush []site
 	for _, s := range put {
-		if f.Mentions(s.call, s.blk)["local:tempstore"] {
+		if f.Mentions(s.call, s.blk)["local<-type:pkg/core/storage.MemCachedStore"] {
 			flush = append(flush, s)
 		}
 	}
@@ -369,7 +369,7 @@ func ruleSwapOrder(c *Ctx) {
 		nps++
 		key := fmt.Sprintf("persist.ps-order#%d", nps)
 		switch {
-		case rhs["local:tempstore"] && !rhs["pkg/core/storage#ps"]: // s.ps = tempstore
+		case rhs["local<-type:pkg/core/storage.MemCachedStore"] && !rhs["pkg/core/storage#ps"]: // s.ps = tempstore
 			if isAfter {
 				c.Fail(key, c.P.Pos(as.Pos()), "the tempstore is installed as lower layer after the lower write started: keys being flushed are unreachable meanwhile")
 			} else {
@@ -392,7 +392,7 @@ func ruleSwapOrder(c *Ctx) {
 		n := 0
 		for _, w := range f.WriteSites(sym) {
 			as, isAssign := w.node.(*ast.AssignStmt)
-			if !isAssign || !f.DirectMentions(as.Rhs[0])["local:tempstore"] {
+			if !isAssign || !f.DirectMentions(as.Rhs[0])["local<-type:pkg/core/storage.MemCachedStore"] {
 				continue // installing fresh maps
 			}
 			n++
@@ -401,7 +401,7 @@ func ruleSwapOrder(c *Ctx) {
 			for _, cs := range f.CallSites("maps.Copy") {
 				if len(cs.call.Args) == 2 {
 					d, s2 := f.DirectMentions(cs.call.Args[0]), f.DirectMentions(cs.call.Args[1])
-					if d[sym] && d["local:tempstore"] && s2[sym] && !s2["local:tempstore"] {
+					if d[sym] && d["local<-type:pkg/core/storage.MemCachedStore"] && s2[sym] && !s2["local<-type:pkg/core/storage.MemCachedStore"] {
 						copies = append(copies, cs)
 					}
 				}
@@ -610,7 +610,7 @@ func ruleBackendTx(c *Ctx) {
 			_ = s
 			_ = i
 		}
-		okc, path := f.CheckMustCall(f.Entry(), blocksOf(f.OKReturns()), &Assume{Conds: []AssumeCond{{Mentions: []string{"local:err"}, Val: false}}}, "github.com/syndtr/goleveldb/leveldb.(*Transaction).Commit")
+		okc, path := f.CheckMustCall(f.Entry(), blocksOf(f.OKReturns()), &Assume{Conds: []AssumeCond{{Mentions: []string{"var:error"}, Val: false}}}, "github.com/syndtr/goleveldb/leveldb.(*Transaction).Commit")
 		if okc {
 			c.OK("leveldb.PutChangeSet.commit", c.P.Pos(fd.Decl.Pos()), "every success path ends in Commit")
 		} else {
